@@ -5,6 +5,7 @@
 EXTENDS Context, Json, SequencesExt, FiniteSetsExt
 
 CONSTANTS KwChoices, MaxOps, DoEmit,
+          CtxKwNames,   \* scheme names that take a context keyword (user=..)
           Faulty        \* scheme names whose customisation can be made to raise (fault injection), subset of AllNames
 
 VARIABLES ctx,      \* <<cfg1, cfg2>>; cfg2 = NoCfg until copy()
@@ -12,7 +13,7 @@ VARIABLES ctx,      \* <<cfg1, cfg2>>; cfg2 = NoCfg until copy()
 vars == <<ctx, has2, n, obs>>
 
 NoCfg == [schemes |-> <<>>, def |-> [c \in Cats |-> "unset"], depK |-> [c \in Cats |-> "unset"],
-          depL |-> [c \in Cats |-> {}], opts |-> [k \in Cats \X AllNames |-> NoKw]]
+          depL |-> [c \in Cats |-> {}], opts |-> [k \in Cats \X OptNames |-> NoKw]]
 NoPatch == [hasSchemes |-> FALSE, cfg |-> NoCfg]
 Obs0 == [op |-> "init", i |-> 1, arg |-> NoPatch, armed |-> FALSE, res |-> <<"ok">>]
 
@@ -25,7 +26,7 @@ Overlay(live, p) ==
      def  |-> [c \in Cats |-> IF p.cfg.def[c] # "unset" THEN p.cfg.def[c] ELSE live.def[c]],
      depK |-> [c \in Cats |-> IF p.cfg.depK[c] # "unset" THEN p.cfg.depK[c] ELSE live.depK[c]],
      depL |-> [c \in Cats |-> IF p.cfg.depK[c] # "unset" THEN p.cfg.depL[c] ELSE live.depL[c]],
-     opts |-> [k \in Cats \X AllNames |-> Merge(live.opts[k], p.cfg.opts[k])]]
+     opts |-> [k \in Cats \X OptNames |-> Merge(live.opts[k], p.cfg.opts[k])]]
 IsEmptyPatch(p) == ~p.hasSchemes /\ p.cfg = NoCfg
 
 \* errors of a candidate configuration; a faulty scheme being customised while armed raises too
@@ -73,7 +74,7 @@ RandPatch(live, full) ==
                  def  |-> Eager(Cats, LAMBDA c : IF RandomElement(1..w) = 1 THEN RandomElement(nm \cup {RandomElement(AllNames)}) ELSE "unset"),
                  depK |-> dk,
                  depL |-> Eager(Cats, LAMBDA c : IF dk[c] = "list" THEN (IF RandomElement(1..10) = 1 THEN RandomElement(SUBSET AllNames) ELSE RandomElement(SUBSET nm)) ELSE {}),
-                 opts |-> Eager(Cats \X AllNames, LAMBDA k : IF k[2] \in nm /\ RandomElement(1..w) = 1 THEN RandomElement(KwChoices[k[2]]) ELSE NoKw)]]
+                 opts |-> Eager(Cats \X OptNames, LAMBDA k : IF (k[2] \in nm \/ k[2] = "all") /\ RandomElement(1..w) = 1 THEN RandomElement(KwChoices[k[2]]) ELSE NoKw)]]
 
 SimNext ==
     LET i == IF has2 THEN RandomElement({1, 2}) ELSE 1
@@ -105,16 +106,20 @@ UpdateExact == [][(obs'.op = "update" /\ obs'.res[1] = "ok") =>
                     /\ (~p.hasSchemes => ctx'[i].schemes = ctx[i].schemes)
                     /\ \A c \in Cats : (p.cfg.def[c] = "unset" => ctx'[i].def[c] = ctx[i].def[c])
                                        /\ (p.cfg.depK[c] = "unset" => (ctx'[i].depK[c] = ctx[i].depK[c] /\ ctx'[i].depL[c] = ctx[i].depL[c]))
-                    /\ \A k \in Cats \X AllNames : p.cfg.opts[k] = NoKw => ctx'[i].opts[k] = ctx[i].opts[k]]_vars
+                    /\ \A k \in Cats \X OptNames : p.cfg.opts[k] = NoKw => ctx'[i].opts[k] = ctx[i].opts[k]]_vars
 \* an empty update is a no-op
 EmptyUpdateNoop == [][(obs'.op = "update" /\ IsEmptyPatch(obs'.arg)) => ctx' = ctx]_vars
 
 CfgOut(c) == [schemes |-> c.schemes, def |-> c.def, depK |-> c.depK, depL |-> c.depL,
               opts |-> {[cat |-> k[1], name |-> k[2], kw |-> c.opts[k]] : k \in {kk \in DOMAIN c.opts : c.opts[kk] # NoKw}}]
 StandingHash(s) == [scheme |-> s, rounds |-> Unset, pw |-> "p", flagged |-> FALSE]
-Probe(c) == IF c.schemes = <<>> THEN [defaults |-> <<>>, recs |-> {}, ident |-> <<>>]
+Probe(c) == IF c.schemes = <<>> THEN [defaults |-> <<>>, recs |-> {}, ident |-> <<>>, vkw |-> <<>>]
             ELSE [defaults |-> [k \in Cats |-> DefaultScheme(c, k)],
                   ident |-> [s \in AllNames |-> Identify(c, StandingHash(s))],
+                  \* verifying with a context keyword (user=..) supplied: schemes that do not use it must not see it
+                  \* (a context none of whose schemes takes the keyword passes it through, and the hasher refuses it)
+                  vkw |-> [s \in AllNames |-> LET r == Verify(c, "p", StandingHash(s)) IN
+                                              IF r = "ValueError" \/ Names(c) \cap CtxKwNames # {} THEN r ELSE "TypeError"],
                   recs |-> {[cat |-> k, name |-> s, p |-> Record(c, s, k)[2], dep |-> Deprecated(c, s, k)] : k \in Cats, s \in Names(c)}]
 Emit == DoEmit => PrintT(<<"EMIT", ToJson([n |-> n, op |-> obs'.op, i |-> obs'.i, armed |-> obs'.armed, res |-> obs'.res,
                                            patch |-> [hasSchemes |-> obs'.arg.hasSchemes, cfg |-> CfgOut(obs'.arg.cfg)],
